@@ -1,4 +1,5 @@
 CONSTANTS
+  TREEONLY = FALSE
   MUT = 0
   NK = 7
   Keys <- MCKeys
